@@ -9,12 +9,11 @@ open Nomt.Store
 is the pre-image with ALL page writes of a prefix `p` of the accepted pre-switch-over events applied (the special case
 `sub = p` of T4.10).  It decodes — `wfImage`, `absImage` — to the old state. -/
 theorem T3_7_crash_images_before_switchover_decode_to_old_state {img : Image} {tr : List IoEv} {stP : PlacementStats}
-    (h : checkPlacement img tr = .ok stP) {st : Stats} {lnM bbnM : Array UInt8}
-    (hd : wfDetailM img = .ok (st, lnM, bbnM)) (hleak : st.bbnLeaked = 0)
+    (h : checkPlacement img tr = .ok stP)
     (p : List IoEv) (hp : p <+: preMeta tr) (B : Image) (hmeta : B.metaF = img.metaF)
     (hln : Touched img.ln B.ln (writesOf "ln" p)) (hbbn : Touched img.bbn B.bbn (writesOf "bbn" p)) :
     wfImage B = wfImage img ∧ absImage B = absImage img :=
-  let r := C04.T4_10_pre_switchover_images_decode_to_old_state h hd hleak p p hp (List.Sublist.refl _) B hmeta hln hbbn
+  let r := C04.T4_10_pre_switchover_images_decode_to_old_state h p p hp (List.Sublist.refl _) B hmeta hln hbbn
   ⟨r.1, r.2.1⟩
 
 /-- non-vacuity: the fresh store, crash after the first write of its first sync. -/
@@ -24,7 +23,7 @@ example (c1 : ByteArray) (h1 : c1.size = PAGE) :
     wfImage B = wfImage img ∧ absImage B = absImage img := by
   obtain ⟨stP, hacc⟩ := Fresh.accepted (zeros PAGE) (size_zeros _) (allZero_zeros _)
   intro img B
-  refine T3_7_crash_images_before_switchover_decode_to_old_state hacc (Fresh.hwalk _ (size_zeros _) (allZero_zeros _)) rfl
+  refine T3_7_crash_images_before_switchover_decode_to_old_state hacc
     ((preMeta Fresh.tr).take 1) (List.take_prefix _ _) B rfl ?_ ?_
   · have : writesOf "ln" ((preMeta Fresh.tr).take 1) = [1] := by decide
     rw [this]
